@@ -17,10 +17,118 @@ def plan(tier, seed):
     from mc import universe as U
 
     return [
+        {'name': 'mutable', 'target': 'checks.c03:run_mutable', 'x64': False, 'cases': [{'np_params': n, 'use_first': u} for n in MUTABLE for u in (True, False)], 'chunk': 2},
         {'name': 'x32', 'target': TARGET, 'x64': False, 'cases': U.cases(tier, ('f32',))},
         {'name': 'x64', 'target': TARGET, 'x64': True, 'cases': U.cases('quick' if tier == 'quick' else tier, ('f64',)) if tier == 'thorough' else
             [c for c in U.cases(tier, ('f64',)) if 'b' not in c]},
     ]
+
+
+# operators built from NumPy arrays keep (some of) them by reference: the caller can still write into them
+MUTABLE = ['diag', 'bdiag', 'bdiag_left', 'dense', 'rot', 'rot_T', 'hwp', 'pol', 'hom', 'toep', 'index', 'pack', 'block_of_np', 'sum_of_np']
+
+
+def build_mutable(name):
+    import jax
+    import jax.numpy as jnp
+    import numpy as np
+
+    from furax._base.blocks import BlockDiagonalOperator
+    from furax._base.core import HomothetyOperator
+    from furax._base.dense import DenseBlockDiagonalOperator
+    from furax._base.diagonal import BroadcastDiagonalOperator, DiagonalOperator
+    from furax._base.indices import IndexOperator
+    from furax._base.linear import PackOperator
+    from furax.landscapes import StokesPyTree
+    from furax.operators.hwp import HWPOperator
+    from furax.operators.polarizers import LinearPolarizerOperator
+    from furax.operators.qu_rotations import QURotationOperator
+    from furax.operators.toeplitz import SymmetricBandToeplitzOperator
+
+    f32 = np.float32
+    a, m = jax.ShapeDtypeStruct((3,), jnp.float32), jax.ShapeDtypeStruct((2, 3), jnp.float32)
+    S = StokesPyTree.class_for('IQU').structure_for((3,), jnp.float32)
+    v = np.array([2.0, 4.0, 5.0], f32)
+    ang = np.array([0.3, -1.1, 2.0], f32)
+    if name == 'diag':
+        return DiagonalOperator(v, in_structure=a), [v]
+    if name == 'bdiag':
+        return BroadcastDiagonalOperator(v, axis_destination=-1, in_structure=m), [v]
+    if name == 'bdiag_left':
+        w = np.array([[1.0, 2.0, 3.0], [4.0, 5.0, 6.0]], f32)
+        return BroadcastDiagonalOperator(w, axis_destination=(-2, -1), in_structure=a), [w]
+    if name == 'dense':
+        w = np.array([[1.0, 2.0, 0], [3.0, 5.0, 1], [0, 1, 4]], f32)
+        return DenseBlockDiagonalOperator(w, a, 'ij,j->i'), [w]
+    if name == 'rot':
+        return QURotationOperator(ang, S), [ang]
+    if name == 'rot_T':
+        return QURotationOperator(ang, S).T, [ang]
+    if name == 'hwp':
+        return HWPOperator.create(shape=(3,), stokes='IQU', angles=ang), [ang]
+    if name == 'pol':
+        return LinearPolarizerOperator.create(shape=(3,), stokes='IQU', angles=ang), [ang]
+    if name == 'hom':
+        k = np.array(2.0, f32)
+        return HomothetyOperator(k, a), [k]
+    if name == 'toep':
+        b = np.array([4.0, 1.0, 0.5], f32)
+        return SymmetricBandToeplitzOperator(b, a, method='dense'), [b]
+    if name == 'index':
+        i = np.array([0, 2, 2, 1])
+        return IndexOperator(i, in_structure=a), [i]
+    if name == 'pack':
+        k = np.array([True, False, True])
+        return PackOperator(k, a), [k]
+    if name == 'block_of_np':
+        w = np.array([[1.0, 2.0, 0], [3.0, 5.0, 1], [0, 1, 4]], f32)
+        return BlockDiagonalOperator([DiagonalOperator(v, in_structure=a), DenseBlockDiagonalOperator(w, a, 'ij,j->i')]), [v, w]
+    if name == 'sum_of_np':
+        w = np.array([[1.0, 2.0, 0], [3.0, 5.0, 1], [0, 1, 4]], f32)
+        return DiagonalOperator(v, in_structure=a) + DenseBlockDiagonalOperator(w, a, 'ij,j->i') @ DiagonalOperator(v, in_structure=a), [v, w]
+    raise KeyError(name)
+
+
+def run_mutable(phase, cases, ctx):
+    """A and A.T exist side by side; the caller then writes into the NumPy arrays A was built from.  Whatever A does with
+    those arrays (follow them or keep a snapshot), the A.T obtained earlier must remain the adjoint of A: they may not drift
+    apart.  (use_first: A.T is applied once before the arrays change, so anything it memoises on first use is in place.)"""
+    import collections
+    import json
+
+    import numpy as np
+
+    from mc import probe as P
+
+    violations = []
+    counters = collections.Counter()
+    nontrivial = set()
+    for case in cases:
+        try:
+            op, arrs = P.lib('build', build_mutable, case['np_params'])
+            T = P.lib('transpose', lambda: op.T)
+            if case['use_first']:
+                P.probe(T, cache=False)
+            M0 = P.probe(op, cache=False).M
+            for v in arrs:
+                if v.dtype == bool or v.dtype.kind in 'iu':
+                    v[...] = np.roll(v, 1)
+                else:
+                    v[...] = v * 1.5 + 0.25
+            M1 = P.probe(op, cache=False).M
+            MT = P.probe(T, cache=False).M
+            counters['follows_the_arrays' if not np.allclose(M0, M1) else 'keeps_a_snapshot'] += 1
+            if not P.close(MT, M1.T, 1e-5):
+                violations.append({'kind': 'transpose-drifts-from-operator', 'case': case,
+                                   'detail': f'after the caller modified the NumPy arrays in place, M(A) = {P.mat_summary(M1, 30)} but the A.T taken earlier has M(A.T) = {P.mat_summary(MT, 30)} '
+                                             f'(before: M(A) = {P.mat_summary(M0, 30)})'})
+            Tn = P.lib('transpose', lambda: op.T)
+            if not P.close(P.probe(Tn, cache=False).M, M1.T, 1e-5):
+                violations.append({'kind': 'not-adjoint', 'case': case, 'detail': 'a transpose taken after the modification is not the adjoint either'})
+            nontrivial.add(json.dumps(case))
+        except P.LibError as e:
+            violations.append({'kind': 'library-raises', 'case': case, 'detail': f'{e}\n{e.tb}'})
+    return {'n': len(cases), 'violations': violations, 'counters': counters, 'nontrivial': nontrivial, 'samples': cases[:1], 'classes': set()}
 
 
 def contains_no_transpose(desc):
